@@ -59,7 +59,7 @@ def build_ops(tier, full=True):
             ops.append(("insert", i, o))
     for o in SIG3:
         ops.append(("insert", "last", o))  # the positive index len(p) - 1 (just before the final opcode)
-    for i in (0, 1, -2, -1):
+    for i in (0, 1, -2, -1, "last", "last-1"):
         ops.append(("del", i))
     for i in (0, -2):
         for o in SIG3:
@@ -70,7 +70,7 @@ def build_ops(tier, full=True):
     ops += [("extend", ("NONE", "REDUCE")), ("pop",), ("pop0",), ("reverse",), ("iadd", ("GLOBAL",)), ("remove_first",),
             ("clear_tail",)]
     ops += [("insert_python", "1+1", True, False), ("insert_python", "1+1", False, False), ("insert_python", "1+1", False, True),
-            ("append_python", "2"), ("insert_magic_int", 7), ("insert_python_obj", 0), ("insert_python_exec", "pass")]
+            ("append_python", "2"), ("insert_magic_int", 7), ("insert_python_obj", 0), ("insert_python_obj", -1), ("insert_python_exec", "pass")]
     ops += [("read", "ast"), ("read", "props"), ("read", "sev"), ("read", "dumps")]
     return tuple(ops)
 
@@ -81,7 +81,12 @@ def do_edit(p, op):
         i = len(p) if op[1] == "end" else (len(p) - 1 if op[1] == "last" else op[1])
         p.insert(i, sym(op[2]))
     elif k == "del":
-        del p[op[1]]
+        i = op[1]
+        if i == "last":
+            i = len(p) - 1
+        elif i == "last-1":
+            i = len(p) - 2
+        del p[i]
     elif k == "set":
         p[op[1]] = sym(op[2])
     elif k == "setslice":
